@@ -33,10 +33,11 @@ SPECS = (
     + [dict(spacing=s) for s in (0.5, 1.0, 1.5, 0.75, 2.5, 7.0)]
     + [dict(spacing=s) for s in ([0.5, 1.0], [1.0, 0.5], [1.5, 0.75], [2.0, 1.25])]
 )
-FRAMES = [[1.0, 0.0], [1.0, 7460000.0], [2.0 ** -7, 0.0], [2.0 ** 10, 0.0], [1.0, 4096.0], [2.0 ** 20, 2.0 ** 30]]
+FRAMES = [[1.0, 0.0], [1.0, 7460000.0], [2.0 ** -7, 0.0], [2.0 ** 10, 0.0], [1.0, 4096.0], [2.0 ** 20, 2.0 ** 30], [2.0 ** -30, 0.0],
+          [2.0 ** -10, 2.0 ** 20]]   # the last: millimetre blocks at coordinates of a million (ratio 2^30)
 DEGENERATE = [[[1.0, 0.0], [1.0, 1.0], [1.0, 2.0], [1.0, 3.5]], [[0.0, 2.0], [1.5, 2.0], [4.0, 2.0], [2.25, 2.0]], [[2.0, 0.5]], [[-3.0, 1.0], [-3.0, 1.0]]]
 NEAR = [1e-3, 1e-5, 2e-6, 1e-6, 1e-7, 1e-9]   # fractions of a block
-ALWAYS_FRAMES = [[1.0, 0.0], [1.0, 7460000.0]]   # the second one: projected-coordinate magnitudes at which a float32 cast moves quarter-unit points
+ALWAYS_FRAMES = [[1.0, 0.0], [1.0, 7460000.0], [2.0 ** -10, 2.0 ** 20]]   # the second one: projected-coordinate magnitudes at which a float32 cast moves quarter-unit points
 
 
 def _frames(tier, seed):
